@@ -694,6 +694,16 @@ class Registry:
         p: Path = it.p
         if kwargs:
             raise Unsupported("uninterpreted function with keyword arguments")
+        if getattr(uf, "native", False):
+            # ghost content function (e.g. device memory): a solver function symbol with a range axiom, also for literal arguments
+            fsym = z3.Function("ghost_" + uf.name, *([z3.IntSort()] * len(args)), z3.IntSort())
+            seen = p.__dict__.setdefault("_native_ufs", set())
+            if uf.name not in seen and isinstance(uf.result, api.Range):
+                seen.add(uf.name)
+                xs = [z3.Int(f"__{uf.name}_x{i}") for i in range(len(args))]
+                p.assume(z3.ForAll(xs, z3.And(fsym(*xs) >= uf.result.lo, fsym(*xs) <= uf.result.hi), patterns=[fsym(*xs)]))
+            p.assumption_ids.add("uf:" + uf.name)
+            return ops.mk_int(fsym(*[ops.int_term(a) for a in args]))
         args = [_effectively_concrete(a) for a in args]
         if not ops.has_sym(args):
             return uf.fn(*args)
